@@ -199,6 +199,8 @@ class Recorder:
             p.update(path="root", bracket=(float(br[0]), float(br[1])),
                      fa=float(f(br[0])), fb=float(f(br[1])), root=float(res.root),
                      xtol=k.get("xtol"), rtol=k.get("rtol"),
+                     # independent, fully converged zero in the same bracket
+                     ref=float(rec.r0(f, bracket=br, xtol=1e-300, rtol=8.9e-16).root),
                      froot=float(f(res.root)))
             return res
         self.mod.minimize_scalar, self.mod.root_scalar = mini, root
@@ -637,6 +639,7 @@ def run_profile(name, vw, widths, offsets, shape, seed, amp, errTol=1e-6, offEq=
                  tmin=rp["tmin"], fmin_rel=rp["fmin"] / abs(c2))
         if path == "root":
             d.update(bracket=rp["bracket"], fa=rp["fa"], fb=rp["fb"], root=rp["root"],
+                     root_err=abs(rp["root"] - rp["ref"]), root_ref=rp["ref"],
                      froot_rel=rp["froot"] / abs(c2))
         pts.append(d)
     out["points"] = pts
@@ -744,6 +747,15 @@ def judge(ctx, name, vw, widths, offsets, shape, seed, amp, res, stats, errTol=1
                      "f(root)/|c2|=%.2e violates the sign-change/root contract [%s]"
                      % (d["k"], a, b, d["fa"], d["fb"], d["root"], d["froot_rel"], tag),
                      dict(rep, k=d["k"]))
+            # conclusion of theorem root_accuracy_is_relative, measured: the returned temperature
+            # is within 1e-10 + errTol/10 |r| of the zero (relative: independent of the units)
+            bound = 1e-10 + errTol / 10 * abs(d["root_ref"])
+            if d["root_err"] > 1.01 * bound + 4e-16 * abs(d["root_ref"]):
+                fail("root-accuracy", d["root_err"] / bound,
+                     "point %d: returned T=%.12g is %.2e away from the zero %.12g of the LHS, "
+                     "more than 1e-10 + errTol/10*|T| = %.2e (errTol=%g) [%s vw=%g]" % (
+                         d["k"], d["root"], d["root_err"], d["root_ref"], bound, errTol, tag, vw),
+                     dict(rep, k=d["k"]))
             det = br == "detonation"
             if (det and not d["root"] <= d["tmin"] * (1 + 1e-12)) or \
                     (not det and not d["root"] >= d["tmin"] * (1 - 1e-12)):
@@ -783,10 +795,6 @@ def judge(ctx, name, vw, widths, offsets, shape, seed, amp, res, stats, errTol=1
         T, v = res["T"], res["v"]
         eb = max(abs(T[0] / res["Tm"] - 1), abs(v[0] + res["vm"]))
         ef = max(abs(T[-1] / res["Tp"] - 1), abs(v[-1] + res["vp"]))
-        stats["worst_asym"] = max(stats.get("worst_asym", 0.0), eb, ef)
-        if max(eb, ef) >= stats.get("worst_asym", 0.0):
-            stats["worst_asym_where"] = (tag, vw, errTol, "back %.1e front %.1e" % (eb, ef))
-        ctx.count("asymptote_checked", nontrivial=False, bucket=br)
         tol_a = TOL_ASYM if shape == "none" else 10 * TOL_ASYM   # moments do not vanish at the ends
         p0 = res["points"][0]
         if eb > tol_a and br == "detonation" and p0["tmin"] < res["Tm"] * (1 - 1e-7):
@@ -798,6 +806,10 @@ def judge(ctx, name, vw, widths, offsets, shape, seed, amp, res, stats, errTol=1
                 rep, Tminus=res["Tm"], vminus=res["vm"], T_back=T[0], v_back=v[0],
                 minimiser_back=p0["tmin"], err=eb))
             eb = 0.0
+        stats["worst_asym"] = max(stats.get("worst_asym", 0.0), eb, ef)
+        if max(eb, ef) >= stats.get("worst_asym", 0.0):
+            stats["worst_asym_where"] = (tag, vw, errTol, "back %.1e front %.1e" % (eb, ef))
+        ctx.count("asymptote_checked", nontrivial=False, bucket=br)
         if eb > tol_a:
             ctx.fail_input("behind the wall the profile tends to (T=%.6g, v=%.6g) instead of "
                            "(T-=%.6g, -v-=%.6g) [%s vw=%g, (T+-Tn)/Tn=%.2e]" % (
@@ -814,6 +826,33 @@ def direct_validation(ctx):
     rng = ctx.rng
     stats = {}
     plan = []
+    # the RECORDED input of the known finding "detonation-root-above-minimiser" is replayed first
+    # on every run; it is reported under that key only if the independent criterion of judge()
+    # still classifies it (hydrodynamic T- above the LHS minimiser behind the wall)
+    rpath = os.path.join(vlib.VERIF, "findings", "C04_detonation_wrong_root.json")
+    if os.path.exists(rpath):
+        with open(rpath) as fh:
+            ri = json.load(fh)
+        try:
+            res = run_profile(ri["model"], ri["vw"], ri["widths"], ri["offsets"], ri["moments"],
+                              ri["seed"], ri["amp"], errTol=ri.get("errTol", 1e-6),
+                              offEq=ri.get("offEq", True))
+            ctx.count("recorded_finding_replayed", nontrivial=False)
+            if res.get("nohydro"):
+                ctx.log("recorded input findings/C04_detonation_wrong_root.json: no profile "
+                        "(%s)" % res.get("why"))
+            else:
+                judge(ctx, ri["model"], ri["vw"], ri["widths"], ri["offsets"], ri["moments"],
+                      ri["seed"], ri["amp"], res, stats, errTol=ri.get("errTol", 1e-6),
+                      offEq=ri.get("offEq", True))
+                for d in stats.get("finding2", []):
+                    d["recorded_input"] = True
+                if not stats.get("finding2"):
+                    ctx.log("recorded input findings/C04_detonation_wrong_root.json no longer "
+                            "shows the detonation taking the root below a minimiser that lies "
+                            "below T- (back: T=%.8g, T-=%.8g)" % (res["T"][0], res["Tm"]))
+        except Exception as ex:                          # noqa: BLE001
+            ctx.log("replay of findings/C04_detonation_wrong_root.json raised %r" % ex)
     # (model, velocity window) -- windows relative to the model's own cs / vJ, see below
     for name in MODELS:
         _, thermo, hydro, _, _, TN, _ = build_model(name)
@@ -875,7 +914,7 @@ def direct_validation(ctx):
             "; worst asymptote at", stats.get("worst_asym_where"))
     f2 = stats.get("finding2", [])
     if f2:
-        f2.sort(key=lambda d: -d["err"])
+        f2.sort(key=lambda d: (not d.get("recorded_input", False), -d["err"]))
         top = f2[0]
         what = ("detonation whose v- lies between the equilibrium and the fixed-field sound "
                 "speed: the hydrodynamic T-=%.8g is ABOVE the minimiser %.8g of the Eq.(20) LHS "
